@@ -34,7 +34,8 @@ var verifC19StmtSrc = []string{
 	"select a from t group by a having @v;", "select nosuch from t;", "select t.* from t u;", "select 1 from t t, t t;",
 	"insert into t values (1, 2, 3);", "insert into t (nosuch) values (1);", "update t set nosuch = 1;", "update nosuch set a = 1;", "delete from t, t;", "replace into t (a) using (nosuch) values (1);",
 	"while @i in nosuch do print 1; end while;", "while true do exit 300; end while;", "if @v then print 1; elseif @v then print 2; end if;",
-	"case @v when @v then print 1; end case;", "commit; rollback; commit;",
+	"case @v when @v then print 1; end case;", "select format('%99999999999999999999d', @v), format('%099999999999999999999f', @v), format('%.99999999999999999999f', @v), format('%-99999999999999999999s|', @v);", "printf '%99999999999999999999s', @v;",
+	"commit; rollback; commit;",
 }
 var verifC19Stmts [][]parser.Statement
 
